@@ -82,6 +82,33 @@ def rule_a1(repo, res):
                 sites.append((c, m, fn, n, what))
             res.oblige("A1", f"{c}.{m} does not mutate objects derived from its arguments", ok=not bad, nontrivial=bool(derived))
     res.floor("encoder methods scanned", n_methods, 30)
+    # a private helper that receives a public method's own argument is read as part of that method: the mutation
+    # is attributed to the entry point whose caller sees it (PDSLabelEncoder.encode -> self._helper(module, ...))
+    def entry_of(c, m, fn, n):
+        var = None
+        for t in (n.targets if isinstance(n, ast.Assign) else []):
+            if isinstance(t, ast.Subscript) and isinstance(t.value, ast.Name):
+                var = t.value.id
+        hp = [a.arg for a in fn.args.args[1:]]
+        if not m.startswith("_") or var not in hp:
+            return m
+        callers = []
+        for c2 in encoder_classes(repo):
+            for m2, fn2 in repo.classes[c2].methods.items():
+                for x in ast.walk(fn2):
+                    if isinstance(x, ast.Call) and norm(x.func) == f"self.{m}":
+                        callers.append((c2, m2, fn2, x))
+        entries = set()
+        for (c2, m2, fn2, x) in callers:
+            _, der2 = derived_from_params(fn2)
+            i = hp.index(var)
+            arg = x.args[i] if i < len(x.args) else next((k.value for k in x.keywords if k.arg == var), None)
+            if isinstance(arg, ast.Name) and arg.id in der2 and not m2.startswith("_"):
+                entries.add(m2)
+            else:
+                return m
+        return entries.pop() if len(entries) == 1 else m
+    sites = [(c, entry_of(c, m, fn, n), fn, n, what) for (c, m, fn, n, what) in sites]
     permitted = []
     for (c, m, fn, n, what) in sites:
         is_conv = (isinstance(n, ast.Assign) and isinstance(n.targets[0], ast.Subscript)
@@ -299,52 +326,25 @@ def rule_w1(repo, res, which=("quoted", "symbol", "flags")):
     for enc in encoder_classes(repo):
         gcls, dcls = lang.encoder_pairing(repo, enc)
         c, fn = repo.resolve_method(enc, "encode_assignment")
-        # does the argument of a self.format() call include the encoded value?
+        # does the text handed to a self.format() call include the encoded value?  (flow-sensitive taint walk; the
+        # source is what self.encode_value returns; text derived from it by helpers or concatenation stays tainted)
+        from . import flow
+        hits = flow.sinks(fn, lambda e: isinstance(e, ast.Call) and norm(e.func) == "self.encode_value",
+                          lambda call: norm(call.func) == "self.format")
         tainted_calls = []
-        for call in [n for n in ast.walk(fn) if isinstance(n, ast.Call) and norm(n.func) == "self.format"]:
-            arg = call.args[0] if call.args else None
-            if arg is not None and not isinstance(arg, ast.Name):
-                # the text may pass through a helper: self.format(self._delimited(s), level)
-                inner = [x for x in ast.walk(arg) if isinstance(x, ast.Name) and x.id not in ("self", "level")]
-                arg = inner[0] if inner else None
-            if not isinstance(arg, ast.Name):
-                continue
-            # statements before the call (in source order) that add the encoded value to that variable
-            adds = []
-            for n in ast.walk(fn):
-                if isinstance(n, ast.AugAssign) and isinstance(n.target, ast.Name) and n.target.id == arg.id and \
-                        n.lineno <= call.lineno and ("encode_value" in norm(n.value) or "enc_val" in norm(n.value)):
-                    # same branch?  the call must be reachable after the add: same statement list or later
-                    adds.append(n)
-            reach = []
-            for a in adds:
-                pa, pc = getattr(a, "_parent", None), getattr(call, "_parent", None)
-                # walk up from the call to find a list that also contains the add
-                anc = call
-                same = False
-                while anc is not None and anc is not fn:
-                    par = getattr(anc, "_parent", None)
-                    for field in ("body", "orelse"):
-                        lst = getattr(par, field, None)
-                        if isinstance(lst, list) and anc in lst and a in lst and lst.index(a) < lst.index(anc):
-                            same = True
-                    anc = par
-                if same:
-                    reach.append(a)
-            if reach:
-                # is the call inside the not-startswith(quotes) branch?
-                sanitised = False
-                anc = call
-                while anc is not None and anc is not fn:
-                    par = getattr(anc, "_parent", None)
-                    if isinstance(par, ast.If) and anc in par.orelse:
-                        # the exempt branch must test for *every* quote character: startswith(<the whole quotes tuple>)
-                        for cc in ast.walk(par.test):
-                            if isinstance(cc, ast.Call) and isinstance(cc.func, ast.Attribute) and cc.func.attr == "startswith" \
-                                    and cc.args and norm(cc.args[0]) in ("self.grammar.quotes", "tuple(self.grammar.quotes)"):
-                                sanitised = True
-                    anc = par
-                tainted_calls.append((call, sanitised))
+        for call, conds, env in hits:
+            # sanitised: the path holds the negation of <encoded value>.startswith(<every quote character>)
+            sanitised = False
+            for test, pol in conds:
+                neg = not pol
+                t = test
+                while isinstance(t, ast.UnaryOp) and isinstance(t.op, ast.Not):
+                    t, neg = t.operand, not neg
+                if neg and isinstance(t, ast.Call) and isinstance(t.func, ast.Attribute) and t.func.attr == "startswith" \
+                        and isinstance(t.func.value, ast.Name) and t.func.value.id in env \
+                        and t.args and norm(t.args[0]) in ("self.grammar.quotes", "tuple(self.grammar.quotes)"):
+                    sanitised = True
+            tainted_calls.append((call, sanitised))
         folds = decoder_folds_whitespace(repo, dcls)
         for call, sanitised in tainted_calls:
             kinds = {"CONTAINS_QUOTED"} | (set() if sanitised else {"IS_QUOTED"})
@@ -590,11 +590,21 @@ def rule_c12_structure(repo, res):
                         where=f"pvl/encoder.py:{ff.lineno}"))
     # encode(): END line, sweep
     fe = repo.method("PVLEncoder", "encode")
-    end = [n for n in ast.walk(fe) if isinstance(n, ast.Assign) and norm(n.value) == "self.grammar.end_statements[0]"]
-    appended = any(isinstance(n, ast.Call) and norm(n.func).endswith(".append") and end and norm(n.args[0]) == norm(end[0].targets[0])
-                   for n in ast.walk(fe))
-    res.oblige("END", "PVLEncoder.encode appends the END statement (grammar.end_statements[0]) as the last line", ok=bool(end) and appended)
-    if not (end and appended):
+    # the text is <newline>.join(<lines>); the last of the lines derives from grammar.end_statements[0]
+    from . import flow
+    ok_end = False
+    for st in fe.body:
+        joins = [n for n in ast.walk(st) if isinstance(n, ast.Call) and isinstance(n.func, ast.Attribute) and n.func.attr == "join"
+                 and norm(n.func.value) == "self.newline" and len(n.args) == 1]
+        if not joins:
+            continue
+        elts = flow.list_elements(fe, joins[0].args[0], st)
+        if elts:
+            t, env = flow.taint_before(fe, st, lambda e: isinstance(e, ast.Subscript) and norm(e) == "self.grammar.end_statements[0]")
+            ok_end = t.tainted(elts[-1], env) and not any(t.tainted(x, env) for x in elts[:-1])
+        break
+    res.oblige("END", "PVLEncoder.encode: the last line of the text derives from the END statement (grammar.end_statements[0])", ok=ok_end)
+    if not ok_end:
         res.add(Finding("END", "PVLEncoder.encode", "END line", "encode() no longer ends the text with the grammar's END statement",
                         where=f"pvl/encoder.py:{fe.lineno}"))
     sweep = [n for n in fe.body if isinstance(n, ast.For)]
